@@ -732,6 +732,21 @@ func (x *Explorer) Truth(v ssa.Value, st *State) (val, known bool) {
 	if val, known = truthOfKey(k, st); known {
 		return
 	}
+	// value-or-error results: (call#0 == nil) follows from what the path
+	// knows about (call#1 == nil)
+	if strings.HasPrefix(k, "(t") && strings.HasSuffix(k, "#0==nil)") {
+		reg := k[1 : len(k)-len("#0==nil)")]
+		if !strings.ContainsAny(reg, "(#=") && x.nnsReg(reg) {
+			if errNil, known := truthOfKey("("+reg+"#1==nil)", st); known {
+				if errNil {
+					return false, true
+				}
+				if x.libReg(reg) {
+					return true, true
+				}
+			}
+		}
+	}
 	// the register itself: its value cannot change although the key it was
 	// aliased to (a memory-dependent expression) may have been invalidated
 	if _, isInstr := v.(ssa.Instruction); isInstr {
@@ -1377,6 +1392,28 @@ func (x *Explorer) nnsReg(reg string) bool {
 	return x.P.nonNilOnSuccessReg(b.Parent(), base)
 }
 
+// libReg: reg is the result of a library call of the value-or-error table
+// (nil value together with an error).
+func (x *Explorer) libReg(reg string) bool {
+	b, ok := x.regBlock[reg]
+	if !ok {
+		return false
+	}
+	base := reg
+	if i := strings.Index(reg, "_h"); i > 0 {
+		base = reg[:i]
+	}
+	found := false
+	InstrsShallow(b.Parent(), func(in ssa.Instruction) {
+		if call, ok := in.(*ssa.Call); ok && call.Name() == base {
+			if callee := call.Call.StaticCallee(); callee != nil && libValueOrError[callee.String()] {
+				found = true
+			}
+		}
+	})
+	return found
+}
+
 func appendTrace(t []int, b int) []int {
 	n := make([]int, len(t)+1)
 	copy(n, t)
@@ -1772,7 +1809,13 @@ func (p *Prog) nonNilOnSuccessReg(fn *ssa.Function, reg string) bool {
 				return
 			}
 			callee := call.Call.StaticCallee()
-			if callee == nil || !p.InModule(callee) {
+			if callee == nil {
+				return
+			}
+			if !p.InModule(callee) {
+				if libValueOrError[callee.String()] {
+					m[call.Name()] = true
+				}
 				return
 			}
 			if p.NonNilOnSuccess(callee) {
@@ -1782,6 +1825,14 @@ func (p *Prog) nonNilOnSuccessReg(fn *ssa.Function, reg string) bool {
 		nnsRegCache[key] = m
 	}
 	return m[reg]
+}
+
+// libValueOrError: library functions that return a usable value exactly when
+// they return no error, and nil together with an error (their documented and,
+// under the Go 1 promise, stable behaviour).
+var libValueOrError = map[string]bool{
+	"os.Lstat": true, "os.Stat": true, "os.Open": true, "os.OpenFile": true, "os.Create": true,
+	"github.com/moby/patternmatcher.New": true,
 }
 
 var nnsRegCache = map[*ssa.Function]map[string]bool{}
